@@ -171,13 +171,13 @@ class RealConn(object):
     def peek(self):
         c = self.conn
         wm = getattr(c, '_inbound_flow_control_window_manager', None)
-        return 'st=%d,%d,%s,%d,%d,%d,%s,%s,%d,%d,%d' % (
+        return 'st=%d,%d,%s,%d,%d,%d,%s,%s,%d,%d,%d,%d' % (
             len(c.streams), len(getattr(c, '_closed_streams', ())), c.state_machine.state.name,
             c.highest_inbound_stream_id, c.highest_outbound_stream_id,
             c.outbound_flow_control_window,
             opt(getattr(wm, 'current_window_size', None)), opt(getattr(wm, 'max_window_size', None)),
             c.max_outbound_frame_size, c.max_inbound_frame_size,
-            len(c.incoming_buffer.data)) + ' | ss=' + self.peek_streams()
+            len(c.incoming_buffer.data), len(c.incoming_buffer._headers_buffer)) + ' | ss=' + self.peek_streams()
 
     def peek_streams(self):
         """per stream (dict order): sid:state:closed_by:out_win:in_win:in_max:flags:expected_len:actual_len"""
@@ -215,7 +215,7 @@ class RealConn(object):
                 'closed': dict((k, (v.name if v is not None else None)) for k, v in c._closed_streams.items()) if len(c._closed_streams) < 64 else None,
                 'local': dict((int(k), list(v)) for k, v in c.local_settings._settings.items()),
                 'remote': dict((int(k), list(v)) for k, v in c.remote_settings._settings.items()),
-                'hdr_pending': bool(c.incoming_buffer._headers_buffer)}
+                'hdr_pending': bool(c.incoming_buffer._headers_buffer), 'hdr_backlog': len(c.incoming_buffer._headers_buffer)}
 
     # -- execution -----------------------------------------------------------
     def execute(self, op):
